@@ -9,7 +9,7 @@
    crashes. [reports ... f ms] are the matches among ms that a rule with filter f reports. *)
 From Coq Require Import List ZArith Bool String Lia.
 From RG.Base Require Import Outcome.
-From RG.Filters Require Import FilterIR FilterAlgebra LoaderState.
+From RG.Filters Require Import FilterIR FilterAlgebra LoaderState ValueSources.
 From RGW Require Import Gen_FilterTables Inst_C17.
 Import ListNotations.
 Local Open Scope string_scope.
@@ -210,6 +210,53 @@ Theorem C17_comparison_closures_as_audited : cmp_closures_okb gen_cmp_closures =
 Proof. exact gen_cmp_closures_ok. Qed.
 Print Assumptions C17_comparison_closures_as_audited.
 
+(* ---------------------------------------------------------------- where the compared values come from *)
+(* the Text of a capture is nodeText of it -- the text a report message shows for `$x` -- and the functions behind it, as well as
+   expandMacro's re-creation of literal values, are the audited ones (RG.Filters.ValueSources) *)
+Theorem C17_value_sources_as_audited :
+  value_sources_okb gen_value_sources = true /\ macro_int_params_okb gen_macro_int_base gen_macro_int_bits = true.
+Proof. exact (conj gen_value_sources_ok gen_macro_int_params_ok). Qed.
+Print Assumptions C17_value_sources_as_audited.
+
+(* `Text == c` / `Text != c` accept exactly when the reported text is / is not c: for every file (bytes readable or not),
+   every capture, every constant *)
+Theorem C17_text_eq_is_reported_text : forall file nodes E x c,
+  eval_gen (text_env file nodes E) (LCmpConst KText x "EQL" (CStr c)) = Ok (String.eqb (node_text file (nodes x)) c) /\
+  eval_gen (text_env file nodes E) (LCmpConst KText x "NEQ" (CStr c)) = Ok (negb (String.eqb (node_text file (nodes x)) c)).
+Proof. exact (text_eq_is_reported_text gen_combinators). Qed.
+Print Assumptions C17_text_eq_is_reported_text.
+
+(* what the extent of a capture says about its Text: its length when the file's bytes can be read back, nothing otherwise --
+   deciding `Text == c` from End()-Pos() first is sound on the former files only *)
+Theorem C17_text_length_is_extent_on_readable_files : forall file n,
+  in_file file n = true -> tn_from n <= tn_to n -> String.length (node_text file n) = extent n.
+Proof. exact node_text_length_readable. Qed.
+Print Assumptions C17_text_length_is_extent_on_readable_files.
+
+Theorem C17_extent_shortcut_sound_on_readable_files : forall file n c,
+  in_file file n = true -> tn_from n <= tn_to n -> eq_by_extent file n c = String.eqb (node_text file n) c.
+Proof. exact eq_by_extent_sound_readable. Qed.
+Print Assumptions C17_extent_shortcut_sound_on_readable_files.
+
+Theorem C17_extent_shortcut_unsound_witness :
+  exists n c, in_file "" n = false /\ String.eqb (node_text "" n) c = true /\ eq_by_extent "" n c = false.
+Proof. exact eq_by_extent_unsound_unreadable. Qed.
+Print Assumptions C17_extent_shortcut_unsound_witness.
+
+(* an integer literal in the body of a local predicate function means its Go value: every literal of the Go grammar (decimal,
+   legacy octal, 0o, 0b, 0x, with underscores) below 2^63, read the way expandMacro reads it on this tree *)
+Theorem C17_macro_int_literal_is_go_value : forall p body, wf_lit p body = true -> (lit_value p body < two63)%N ->
+  parse_int (Z.to_N gen_macro_int_base) (Z.to_N gen_macro_int_bits) (spell p body) = Some (Z.of_N (lit_value p body)).
+Proof. exact gen_macro_int_literal. Qed.
+Print Assumptions C17_macro_int_literal_is_go_value.
+
+Theorem C17_macro_int_base10_refuted :
+  parse_int 0 64 "0644" = Some 420%Z /\ parse_int 10 64 "0644" = Some 644%Z /\
+  parse_int 0 64 "0x1F" = Some 31%Z /\ parse_int 10 64 "0x1F" = None /\
+  parse_int 0 64 "1_000" = Some 1000%Z /\ parse_int 10 64 "1_000" = None.
+Proof. exact base10_misreads_legacy_octal. Qed.
+Print Assumptions C17_macro_int_base10_refuted.
+
 (* so the groups of a file are loaded independently: together = one by one *)
 Theorem C17_load_together_is_one_by_one : forall gs,
   load_groups gen_tables gs = flat_map (fun g => load_groups gen_tables [g]) gs.
@@ -289,3 +336,18 @@ Proof. repeat split; vm_compute; reflexivity. Qed.
 
 Example c17_demo_mixed_kinds : compile_gen (DBinary "EQL" (DSel "Type.Size" "x") (DSel "Line" "y")) = None.
 Proof. vm_compute. reflexivity. Qed.
+
+(* `sink(g( 1,2 ))` analysed from memory: the capture spans 9 bytes, its Text is the 7 bytes the printer makes of it *)
+Example c17_demo_text_of_an_unsaved_file :
+  let n := {| tn_from := 40; tn_to := 49; tn_printed := "g(1, 2)" |} in
+  let E := text_env "" (fun _ => n) (demo_env 1 Unknown) in
+  extent n = 9 /\ node_text "" n = "g(1, 2)" /\
+  eval_gen E (LCmpConst KText "x" "EQL" (CStr "g(1, 2)")) = Ok true /\
+  eval_gen E (LCmpConst KText "x" "NEQ" (CStr "g(1, 2)")) = Ok false /\
+  eval_gen E (LCmpConst KText "x" "EQL" (CStr "g( 1,2 )")) = Ok false.
+Proof. vm_compute. repeat split. Qed.
+
+Example c17_demo_file_mode_literal :
+  spell PLegacy [dd 6; dd 4; dd 4] = "0644" /\
+  parse_int (Z.to_N gen_macro_int_base) (Z.to_N gen_macro_int_bits) "0644" = Some 420%Z.
+Proof. vm_compute. split; reflexivity. Qed.
